@@ -2,6 +2,8 @@
 
 package internal
 
+import "time"
+
 // C04 — expired entries are reclaimed within about one tick of their deadline.
 //
 // Inductive invariant over the real TimerWheel for one tracked entry (ghost: wheel time N, deadline E):
@@ -298,4 +300,71 @@ func ZZ_C04_Jump() {
 			vfAssert("jump-invariant-preserved", zzInv(l2, N2, E))
 		}
 	}
+}
+
+// ZZ_C04_Store: end to end through the Store: an entry with a short TTL, two maintenance ticks at symbolic
+// instants at most 2^31 ns apart: never reported before its deadline, reported exactly once as EXPIRED by the
+// first tick that is at least one finest tick past the deadline.
+func ZZ_C04_Store() {
+	var notes []zzNote
+	s := zzThreadedStore(10, &notes)
+	origin := vfClockNow()
+	ttl := vfI64("ttl")
+	t1 := vfI64("tick1")
+	t2 := vfI64("tick2")
+	vfAssume(ttl >= 1)
+	vfAssume(ttl <= 1<<29)
+	vfAssume(t1 > 0)
+	vfAssume(t1 <= 1<<31)
+	vfAssume(t2 > t1)
+	vfAssume(t2-t1 <= 1<<31)
+	s.Set(1, 100, 1, time.Duration(ttl))
+	s.Wait()
+	E := ttl
+	vfClockSet(origin + t1)
+	vfFireTickers()
+	vfQuiesce()
+	n1, _ := zzCount(notes, 1)
+	vfAssert("store-not-early-1", vfImplies(n1 > 0, t1 >= E))
+	vfAssert("store-on-time-1", vfImplies(t1 >= E+zzTick0, n1 == 1))
+	vfClockSet(origin + t2)
+	vfFireTickers()
+	vfQuiesce()
+	vfReach("two-ticks")
+	n2, l2 := zzCount(notes, 1)
+	vfAssert("store-not-early-2", vfImplies(n2 > 0, t2 >= E))
+	vfAssert("store-on-time-2", vfImplies(t2 >= E+zzTick0, n2 == 1))
+	vfAssert("store-at-most-once", n2 <= 1)
+	if n2 == 1 {
+		vfAssert("store-reason-expired", l2.reason == EXPIRED && l2.val == 100)
+		vfAssert("store-gone", s.Len() == 0)
+	}
+	zzAccounted(s, "after-ticks")
+}
+
+// ZZ_C04_LateUpdate: a TTL update whose event is processed only after the new deadline and a tick have passed
+// (slow maintenance): the bound must still refer to the new deadline.
+func ZZ_C04_LateUpdate() {
+	var notes []zzNote
+	s := zzThreadedStore(10, &notes)
+	origin := vfClockNow()
+	s.Set(1, 100, 1, time.Duration(1<<40))
+	s.Wait()
+	ttl2 := vfI64("ttl2")
+	vfAssume(ttl2 >= 1)
+	vfAssume(ttl2 <= 1<<29)
+	s.Set(1, 101, 1, time.Duration(ttl2)) // UPDATE queued, not yet processed
+	vfNote("lateUpdate", 1)
+	vfClockSet(origin + 1<<31) // the new deadline has passed and two fine ticks have begun
+	vfFireTickers()
+	vfQuiesce() // ticker and maintenance run in either order
+	vfClockSet(origin + 1<<32)
+	vfFireTickers()
+	vfQuiesce()
+	vfClockSet(origin + 3<<31)
+	vfFireTickers()
+	vfQuiesce()
+	vfReach("three-ticks")
+	n, l := zzCount(notes, 1)
+	vfAssert("late-update-reclaimed-within-bound", n == 1 && l.reason == EXPIRED && l.val == 101)
 }
